@@ -275,6 +275,16 @@ struct Ctx<'a> {
 }
 
 impl Ctx<'_> {
+    /// FAT12/FAT16 only: the word at offset 20 of a short entry is not part of the cluster number there; other systems keep an
+    /// extended-attribute handle or access rights in it (`"ea": n` on a tree entry)
+    fn ea_word(&self, e: &Value, slot: &mut [u8; 32]) {
+        if self.lay.ft != 32 {
+            if let Some(v) = e.get("ea").and_then(Value::as_u64) {
+                slot[20..22].copy_from_slice(&(v as u16).to_le_bytes());
+            }
+        }
+    }
+
     fn link(&mut self, chain: &[u64]) {
         for (i, c) in chain.iter().enumerate() {
             let v = if i + 1 < chain.len() {
@@ -381,6 +391,7 @@ impl Ctx<'_> {
                     let chain = self.alloc.take(k as usize, e.get("chain").and_then(Value::as_array))?;
                     self.link(&chain);
                     slots.push(sfn_slot(&raw, attr, nt, chain[0], 0, ct, mt, ad));
+                    self.ea_word(e, slots.last_mut().unwrap());
                     self.truth.push(json!({"p": p, "k": "d", "at": attr, "ct": decode_dt(ct.0, ct.1, ct.2), "mt": decode_dt(mt.0, mt.1, 0), "ad": decode_date(ad), "c": []}));
                     pending.push((kids, p, chain, e.get("noend").and_then(Value::as_bool).unwrap_or(false)));
                 }
@@ -401,6 +412,7 @@ impl Ctx<'_> {
                         }
                     }
                     slots.push(sfn_slot(&raw, attr, nt, chain.first().copied().unwrap_or(0), size, ct, mt, ad));
+                    self.ea_word(e, slots.last_mut().unwrap());
                     self.truth.push(json!({"p": p, "k": "f", "at": attr, "sz": size, "ct": decode_dt(ct.0, ct.1, ct.2), "mt": decode_dt(mt.0, mt.1, 0),
                                            "ad": decode_date(ad), "c": cells(&data, self.cell), "chain": chain}));
                 }
